@@ -133,6 +133,12 @@ inline void Epoch::unlock() noexcept {
 }
 
 inline void Epoch::unregister_accessor(size_t index) noexcept {
+  // 释放时若仍处于临界区内，先退出临界区，避免已释放的Accessor持续压低low_water_mark
+  auto& slot = _slots[index];
+  if (slot.lock_times != 0) {
+    slot.lock_times = 0;
+    slot.version.store(UINT64_MAX, ::std::memory_order_release);
+  }
   _id_allocator.deallocate(index);
 }
 
